@@ -891,6 +891,27 @@ func init() {
 				}
 				mk(to, []reaction{answer(a), {pieces: ps}})
 			}
+			// complete frames that carry no message (the client goes on reading): each within the timeout, for ever or followed by
+			// silence - as answer to the authentication request and to the user request
+			for i := 0; i < tierPick(tier, 12, 120); i++ {
+				to := []int64{1000000, 50000000, sec3}[r.intn(3)]
+				pc := newPeerConn("k3y")
+				crcOn := true
+				var first []byte
+				if i%2 == 1 {
+					first = pc.reply(authReply(10), crcOn)
+				}
+				var ps []piece
+				k := 1 + r.intn(6)
+				for j := 0; j < k; j++ {
+					ps = append(ps, piece{data: pc.reply([]rscp.Message{}, crcOn), delay: to / int64(2+r.intn(3))})
+				}
+				if i%2 == 1 {
+					mk(to, []reaction{answer(first), {pieces: ps}})
+				} else {
+					mk(to, []reaction{{pieces: ps}})
+				}
+			}
 			// endless data: many blocks, then silence
 			nend := 6
 			if tier == "thorough" {
@@ -1038,7 +1059,11 @@ func init() {
 						a := pc.reply(authReply(10), crc)
 						u := pc.reply(nonceReply(5), crc)
 						call := "send " + sxs([]rscp.Message{m})
-						switch (shape + level + rep) % 8 {
+						switch (shape + level + rep) % 10 {
+						case 8: // the write of the authentication frame fails (outright, or after a partial write at the deadline)
+							sc.conns = [][]reaction{{{writeFail: true, stall: r.intn(2) * (1 + r.intn(30))}}}
+						case 9: // ... the write of the user request fails
+							sc.conns = [][]reaction{{answer(a), {writeFail: true}}}
 						case 0, 1, 2:
 							sc.conns = [][]reaction{{answer(a), answer(u)}}
 						case 3:
